@@ -171,14 +171,15 @@ def Guid.toBytes (g : Guid) : Bytes :=
     [(g.e >>> 40).toUInt8, (g.e >>> 32).toUInt8, (g.e >>> 24).toUInt8, (g.e >>> 16).toUInt8,
      (g.e >>> 8).toUInt8, g.e.toUInt8]
 
-/-- `GUID.FromRawBytes`: indexes `data[0]` … `data[15]`; panics on fewer than 16 bytes -/
+/-- `GUID.FromRawBytes`: reads `data[0]` … `data[15]`; on fewer than 16 bytes the receiver becomes
+    the nil GUID (after `fixes/C07-guid-fromrawbytes-short.diff`; the method has no error result) -/
 def Guid.fromRawBytes (data : Bytes) : Outcome Guid :=
   match data with
   | d0 :: d1 :: d2 :: d3 :: d4 :: d5 :: d6 :: d7 :: d8 :: d9 :: d10 :: d11 :: d12 :: d13 :: d14 :: d15 :: _ =>
     .ok { a := le32 d0 d1 d2 d3, b := le16 d4 d5, c := le16 d6 d7, d := be16 d8 d9,
           e := (d10.toUInt64 <<< 40) ||| (d11.toUInt64 <<< 32) ||| (d12.toUInt64 <<< 24) |||
                (d13.toUInt64 <<< 16) ||| (d14.toUInt64 <<< 8) ||| d15.toUInt64 }
-  | _ => .panic
+  | _ => .ok ⟨0, 0, 0, 0, 0⟩
 
 /-! ## RSA key material (`crypto/RSAKeyMaterial.go`) -/
 
@@ -206,41 +207,30 @@ def le32At (b : Bytes) (off : Nat) : UInt32 :=
   | b0 :: b1 :: b2 :: b3 :: _ => le32 b0 b1 b2 b3
   | _ => 0
 
-/-- Go `s[lo:hi]` on a slice whose backing array continues: legal up to the *capacity*.
-    `full` is the slice extended to its capacity. -/
-def sliceCap (full : Bytes) (lo hi : Nat) : Outcome Bytes :=
-  if lo ≤ hi ∧ hi ≤ full.length then .ok ((full.drop lo).take (hi - lo)) else .panic
-
-/-- `RSAKeyMaterial.FromBytes(value)`.  `extra` are the bytes that follow `value` inside its
-    capacity (inside `KeyCredential.FromBytes` the entry value is a sub-slice of the blob, and slice
-    expressions are checked against the capacity, index expressions against the length).
-    Result: the mutated receiver and whether an `error` was returned (the caller ignores it). -/
-def RSAKeyMaterial.fromBytes (rk : RSAKeyMaterial) (value extra : Bytes) : Outcome (RSAKeyMaterial × Bool) :=
-  let full := value ++ extra
+/-- `RSAKeyMaterial.FromBytes(value)` (after `fixes/C07-rsakeymaterial-bounds.diff`: fewer than the
+    24 header bytes, or announced sizes that exceed what follows the header, are an error; every
+    slice and index that follows is then inside `value`).  `extra` are the bytes that follow `value`
+    inside its capacity (inside `KeyCredential.FromBytes` the entry value is a sub-slice of the blob):
+    since the repair nothing depends on them any more; the parameter is kept for the callers.
+    Result: the mutated receiver and whether an `error` was returned. -/
+def RSAKeyMaterial.fromBytes (rk : RSAKeyMaterial) (value _extra : Bytes) : Outcome (RSAKeyMaterial × Bool) :=
   let rk := { rk with rawBytes := value }
-  if full.length < 4 then .panic                         -- value[:4]
-  else if full.take 4 != magicRSA1 then .ok (rk, true)    -- "invalid blob type"
-  else if full.length < 24 then .panic                    -- value[4:8] … value[20:24]
+  if value.length < 24 then .ok (rk, true)                -- "RSA key material too short"
+  else if value.take 4 != magicRSA1 then .ok (rk, true)   -- "invalid blob type"
   else
-    let keySize := le32At full 4
-    let eSize := (le32At full 8).toNat
-    let mSize := (le32At full 12).toNat
-    let p1Size := (le32At full 16).toNat
-    let p2Size := (le32At full 20).toNat
-    -- for i := 0; i < exponentSize; i++ { e = e<<8 | value[24+i] }   (index: checked against len)
-    if eSize ≠ 0 ∧ 24 + eSize > value.length then .panic
+    let rk := { rk with keySize := le32At value 4 }
+    let eSize := (le32At value 8).toNat
+    let mSize := (le32At value 12).toNat
+    let p1Size := (le32At value 16).toNat
+    let p2Size := (le32At value 20).toNat
+    if eSize + mSize + p1Size + p2Size > value.length - 24 then .ok (rk, true)   -- sizes exceed the body
     else
+      -- for i := 0; i < exponentSize; i++ { e = e<<8 | value[24+i] }
       let e := ((value.drop 24).take eSize).foldl (fun (acc : UInt32) x => (acc <<< 8) ||| x.toUInt32) 0
       let o1 := 24 + eSize
-      match sliceCap full o1 (o1 + mSize) with
-      | .ok m =>
-        match sliceCap full (o1 + mSize) (o1 + mSize + p1Size) with
-        | .ok p1 =>
-          match sliceCap full (o1 + mSize + p1Size) (o1 + mSize + p1Size + p2Size) with
-          | .ok p2 => .ok ({ rk with keySize := keySize, exponent := e, modulus := m, prime1 := p1, prime2 := p2 }, false)
-          | _ => .panic
-        | _ => .panic
-      | _ => .panic
+      .ok ({ rk with exponent := e, modulus := (value.drop o1).take mSize,
+                     prime1 := (value.drop (o1 + mSize)).take p1Size,
+                     prime2 := (value.drop (o1 + mSize + p1Size)).take p2Size }, false)
 
 /-! ## custom key information (`key/CustomKeyInformation.go`) -/
 
@@ -305,13 +295,21 @@ def fromBinaryId (d : Bytes) (v : UInt32) : Bytes :=
 def toBinaryId (s : Bytes) (v : UInt32) : Option Bytes :=
   if isHexVersion v then hexDecode s else b64DecodeRaw (trimRightEq s)
 
-/-- `ConvertFromBinaryTime(..).Ticks`: `binary.LittleEndian.Uint64` panics on fewer than 8 bytes.
+/-- `ConvertFromBinaryTime(..).Ticks`: fewer than 8 bytes read as tick 0 (after
+    `fixes/C07-keycredential-binarytime-short.diff`).
     A non-zero stamp goes through `NewDateTime`, whose `Ticks` is the stamp; a zero stamp stays zero
     (after `fixes/C14-zero-timestamp.diff`).  The `time.Time` half of `DateTime` is C15's. -/
 def readTicks (d : Bytes) : Outcome UInt64 :=
   match d with
   | b0 :: b1 :: b2 :: b3 :: b4 :: b5 :: b6 :: b7 :: _ => .ok (le64 b0 b1 b2 b3 b4 b5 b6 b7)
-  | _ => .panic
+  | _ => .ok 0
+
+/-- `KeyCredentialVersion.FromBytes`: the value and `RawBytesSize`; fewer than 4 bytes read nothing
+    (value 0, size 0; after `fixes/C07-keycredential-fixed-width-readers.diff`) -/
+def versionFromBytes (b : Bytes) : UInt32 × Nat :=
+  match b with
+  | v0 :: v1 :: v2 :: v3 :: _ => (le32 v0 v1 v2 v3, 4)
+  | _ => (0, 0)
 
 /-! ## the key credential (`KeyCredential.go`) -/
 
@@ -363,13 +361,17 @@ def KeyCredential.toBytes (k : KeyCredential) : Outcome Bytes :=
   | .err => .err
   | .panic => .panic
 
-/-- the `switch entryType.Value` of `FromBytes`; `extra` is what follows the entry in the blob -/
+/-- the `switch entryType.Value` of `FromBytes`; `extra` is what follows the entry in the blob.
+    After `fixes/C07-keycredential-frombytes-bounds.diff`: an error of `RSAKeyMaterial.FromBytes` is
+    returned; an empty KeySource entry, a DeviceId entry under 16 bytes and a time entry under 8 bytes
+    are errors (before the helpers are reached). -/
 def applyEntry (k : KeyCredential) (t : UInt8) (data extra : Bytes) : Outcome KeyCredential :=
   if t = 1 then .ok { k with identifier := fromBinaryId data k.version }
   else if t = 2 then .ok { k with keyHash := data }
   else if t = 3 then
     match k.material.fromBytes data extra with
-    | .ok (m, _) => .ok { k with material := m }
+    | .ok (m, false) => .ok { k with material := m }
+    | .ok (_, true) => .err
     | .err => .err
     | .panic => .panic
   else if t = 4 then
@@ -379,19 +381,22 @@ def applyEntry (k : KeyCredential) (t : UInt8) (data extra : Bytes) : Outcome Ke
   else if t = 5 then
     match data with
     | s :: _ => .ok { k with source := s }
-    | [] => .panic
+    | [] => .err
   else if t = 6 then
+    if data.length < 16 then .err else
     match Guid.fromRawBytes data with
     | .ok g => .ok { k with deviceId := g }
     | .err => .err
     | .panic => .panic
   else if t = 7 then .ok { k with cki := (k.cki.fromBytes data).1 }
   else if t = 8 then
+    if data.length < 8 then .err else
     match readTicks data with
     | .ok x => .ok { k with lastLogon := x }
     | .err => .err
     | .panic => .panic
   else if t = 9 then
+    if data.length < 8 then .err else
     match readTicks data with
     | .ok x => .ok { k with creation := x }
     | .err => .err
@@ -404,7 +409,7 @@ def parseLoop (k : KeyCredential) (rem : Bytes) : Outcome KeyCredential :=
   | l0 :: l1 :: t :: x :: rest' =>
     let rest := x :: rest'
     let n := (le16 l0 l1).toNat
-    if n > rest.length then .panic            -- remainder[length:]
+    if n > rest.length then .err              -- "entry … announces n bytes, … are left"
     else
       match applyEntry k t (rest.take n) (rest.drop n) with
       | .ok k' => parseLoop k' (rest.drop n)
@@ -419,7 +424,7 @@ def KeyCredential.fromBytes (k : KeyCredential) (b : Bytes) : Outcome KeyCredent
   match b with
   | v0 :: v1 :: v2 :: v3 :: rest =>
     parseLoop { k with rawBytes := b, version := le32 v0 v1 v2 v3 } rest
-  | _ => .panic                                -- value[:4] in KeyCredentialVersion.FromBytes
+  | _ => .err                                  -- "blob too short for its version field"
 
 /-- the loop of `ComputeKeyHash`: after every KeyHash-typed entry, everything that follows it is
     appended to `data` -/
@@ -428,7 +433,7 @@ def hashLoop (rem data : Bytes) : Outcome Bytes :=
   | l0 :: l1 :: t :: x :: rest' =>
     let rest := x :: rest'
     let n := (le16 l0 l1).toNat
-    if n > rest.length then .panic
+    if n > rest.length then .ok data          -- `break` (fixes/C07-keycredential-keyhash-walk.diff)
     else hashLoop (rest.drop n) (if t = 2 then data ++ rest.drop n else data)
   | _ => .ok data
 termination_by rem.length
